@@ -181,10 +181,11 @@ impl<'t, 'd> Pr<'t, 'd> {
                 } else {
                     // now and then a line comment right above the statement (rules that copy the
                     // target must not copy that comment)
-                    if matches!(g, G::Line) && self.active() && self.tb(60) {
-                        self.own_line_comment();
+                    if matches!(g, G::Line) && self.active() && self.tb(60) && self.own_line_comment() {
+                        self.target(G::Tight, target, true);
+                    } else {
+                        self.target(g, target, true);
                     }
-                    self.target(g, target, true);
                 }
                 let sym = format!("{}=", op.symbol());
                 self.tok(G::Sp, &sym);
